@@ -48,7 +48,7 @@ def snap(o):
     # strings computed once): an operation that rewrites the shared quantity in place shows here
     base = (type(o).__name__, id(q), o.GetUnit(), o.GetCategory(), o.GetQuantityType(), repr(list(q.GetCategoryToUnitAndExps().items())), q.GetUnitName() if not q.IsDerived() or q.GetUnit() else "", repr(q.GetComposingUnitsJoiningExponents()))
     if isinstance(o, Scalar):
-        return base + (repr(o._value), repr(o.GetValue()))
+        return base + (repr(getattr(o, "_value", None)), repr(o.GetValue()))
     if isinstance(o, FractionScalar):
         fv = o.GetValue()
         assert isinstance(fv, FractionValue)
@@ -452,13 +452,11 @@ def _fingerprint(db):
 
 def run_case(ctx, ops):
     db = _DB.get("db")
-    if db is None or _fingerprint(db) != _DB["fp"]:
+    if db is None or _fingerprint(db) != _DB["fp"] or not env.clear_caches(db):
         db = _DB["db"] = env.new_db("posc")
         # categories with limits so that validation has something to do
         db.AddCategory("bv limited length", "length", min_value=0.0, max_value=100.0, default_value=1.0, default_unit="m")
         _DB["fp"] = _fingerprint(db)
-    db.quantities_cache.clear()
-    db._category_unit_valid.clear()
     with env.pushed(db):
         Machine(ctx, db, {"ops": ops}).run(ops)
 
